@@ -757,11 +757,12 @@ func fuzz(id, lid, target string, d time.Duration, modfile string, cfg propCfg) 
 	harness := filepath.Join(root, "harness")
 	// campaign corpus lives in the build directory, never in /verif
 	cache := filepath.Join(buildDir, "fuzzcache-"+lid)
-	args := []string{"test", "-tags", "verif", "-vet=off", "-run=^$", "-fuzz=^" + target + "$", fmt.Sprintf("-fuzztime=%s", d), "-test.fuzzcachedir=" + cache}
+	args := []string{"test", "-tags", "verif", "-vet=off", "-run=^$", "-fuzz=^" + target + "$", fmt.Sprintf("-fuzztime=%s", d)}
 	if modfile != "" {
 		args = append(args, "-modfile="+modfile)
 	}
-	args = append(args, "./props/"+lid)
+	// flags of the test binary go after the package
+	args = append(args, "./props/"+lid, "-test.fuzzcachedir="+cache)
 	ctx, cancel := context.WithTimeout(context.Background(), d+5*time.Minute)
 	defer cancel()
 	cmd := exec.CommandContext(ctx, "go", args...)
